@@ -230,6 +230,11 @@ impl std::fmt::Display for Disp {
     fn fmt(&self, f: &mut std::fmt::Formatter<'_>) -> std::fmt::Result {
         for p in &self.0 {
             match p {
+                // every way a `Display` impl can reach the sink: `write_char` for a one-character piece, `write!` /
+                // `write_fmt` for some, `write_str` for the rest (the text written is the same)
+                Piece::Text(t) if t.chars().count() == 1 => std::fmt::Write::write_char(f, t.chars().next().unwrap())?,
+                Piece::Text(t) if t.len() % 3 == 1 => write!(f, "{}", t)?,
+                Piece::Text(t) if t.len() % 3 == 2 => f.write_fmt(format_args!("{}{}", &t[..0], t))?,
                 Piece::Text(t) => f.write_str(t)?,
                 Piece::Fail => return Err(std::fmt::Error),
                 Piece::Panic => panic!("{}", CB_PANIC),
@@ -516,7 +521,7 @@ impl Exec {
         // ---------- constructors into an empty slot
         let ctor = matches!(
             base,
-            "new" | "from" | "from_string" | "from_box" | "from_cow" | "from_ref_string" | "from_static" | "with_capacity" | "from_char"
+            "new" | "from" | "from_string" | "from_box" | "from_cow" | "from_ref_string" | "from_unchecked" | "from_static" | "with_capacity" | "from_char"
                 | "clone" | "from_ref" | "to_ls" | "collect_chars" | "collect_strs" | "display" | "int" | "from_utf8"
                 | "from_utf8_lossy" | "from_utf16" | "from_utf16_lossy" | "from_bool" | "float"
         );
@@ -758,6 +763,13 @@ impl Exec {
         self.pool[h] = Some(ls);
         self.oracle[h] = Some(or);
         let Some((out, oout)) = res else { return (Out::Bad, vec![]) };
+        if base == "add" && matches!(out, Out::PanicAlloc | Out::PanicIdx | Out::PanicCb) {
+            // `s + t` takes `s` by value: when the call unwinds the operand is destroyed (its buffer released) and the
+            // caller is left without a value -- the handle is gone, as after `drop` (the model does the same)
+            self.pool[h] = None;
+            self.oracle[h] = None;
+            return (out, vec![h]);
+        }
         self.compare_with_oracle(t, h, &out, &oout, &pre_oracle, iter_items);
         (out, vec![h])
     }
@@ -844,7 +856,7 @@ impl Exec {
                 orc = Some(String::new());
                 Out::Ok(String::new())
             }
-            "from" | "from_string" | "from_box" | "from_cow" | "from_ref_string" => {
+            "from" | "from_string" | "from_box" | "from_cow" | "from_ref_string" | "from_unchecked" => {
                 let s = unhex_str(t.get(2)?)?;
                 orc = Some(s.clone());
                 guarded(|| {
@@ -864,6 +876,8 @@ impl Exec {
                             }
                             "from_ref_string" => LeanString::from(&s),
                             "from_box" => LeanString::from(s.clone().into_boxed_str()),
+                            // SAFETY: `s` is a `String`
+                            "from_unchecked" => unsafe { LeanString::from_utf8_unchecked(s.as_bytes()) },
                             _ if s.len() % 2 == 0 => {
                                 let mut owned = String::with_capacity(s.len() + 40);
                                 owned.push_str(&s);
@@ -1088,6 +1102,7 @@ impl Exec {
                     "int" => &["C14"],
                     "float" | "display" | "from_bool" => &["C15"],
                     "from_utf8" | "from_utf8_lossy" | "from_utf16" | "from_utf16_lossy" => &["C16"],
+                    "from_unchecked" => &["C16", "C01"],
                     "clone" | "from_ref" | "to_ls" => &["C08", "C01"],
                     "from_char" if t[0] == "from_char" => &["C01", "C15"],
                     _ => &["C01"],
@@ -1316,7 +1331,7 @@ impl Exec {
         // C09: texts of at most 16 bytes never touch the heap; longer ones allocate once, exactly
         let is_text_ctor = matches!(
             base,
-            "from" | "from_string" | "from_box" | "from_cow" | "from_ref_string" | "from_char" | "from_bool" | "int" | "from_static" | "new"
+            "from" | "from_string" | "from_box" | "from_cow" | "from_ref_string" | "from_unchecked" | "from_char" | "from_bool" | "int" | "from_static" | "new"
         );
         if is_text_ctor && ok {
             if let Some(a) = &a_t {
